@@ -5,6 +5,7 @@ package filtering
 import (
 	"bufio"
 	"bytes"
+	"compress/gzip"
 	"context"
 	"encoding/json"
 	"fmt"
@@ -53,6 +54,7 @@ type c15World struct {
 
 	d       *DNSFilter
 	lists   []c15List
+	removed map[int]bool
 	dataDir string
 }
 
@@ -90,6 +92,19 @@ func (w *c15World) serve(rw http.ResponseWriter, r *http.Request) {
 		rw.Header().Set("Content-Type", "text/plain")
 		rw.WriteHeader(code)
 		_, _ = io.WriteString(rw, sc.data)
+	case sc.kind == "G":
+		// gzip content coding (Go's transport asks for it and decodes it): whole, or cut inside the stream
+		var zb bytes.Buffer
+		zw := gzip.NewWriter(&zb)
+		_, _ = zw.Write([]byte(sc.data))
+		_ = zw.Close()
+		z := zb.Bytes()
+		if !sc.complete {
+			z = z[:len(z)*2/3]
+		}
+		rw.Header().Set("Content-Encoding", "gzip")
+		rw.Header().Set("Content-Type", "text/plain")
+		_, _ = rw.Write(z)
 	case strings.HasPrefix(sc.kind, "R"):
 		// a redirect the client follows to a 200 with the body
 		rw.Header().Set("Location", "http://"+r.Host+r.URL.Path+".r")
@@ -182,6 +197,7 @@ func (w *c15World) reset(f []string) []string {
 	}
 	w.dataDir = dir
 	w.lists = nil
+	w.removed = map[int]bool{}
 	conf := &Config{
 		FilteringEnabled:           true,
 		ProtectionEnabled:          true,
@@ -224,7 +240,17 @@ func (w *c15World) flt(i int) *FilterYAML {
 			return &w.d.conf.WhitelistFilters[k]
 		}
 	}
+	if w.removed[i] {
+		return nil
+	}
 	panic("no such list")
+}
+
+// pathOf is the stored file of list i, also when the list has been removed.
+func (w *c15World) pathOf(i int) string {
+	fy := FilterYAML{Filter: Filter{ID: rulelist.URLFilterID(i + 1)}}
+
+	return fy.Path(w.dataDir)
 }
 
 func (w *c15World) mask(i int) int {
@@ -265,6 +291,9 @@ func (w *c15World) refresh(f []string) []string {
 		due, kind, data, complete := vutil.UnB(rest[4*i]), rest[4*i+1], vutil.Unhex(rest[4*i+2]), vutil.UnB(rest[4*i+3])
 		l := w.lists[i]
 		fy := w.flt(i)
+		if fy == nil {
+			continue // removed from the configuration
+		}
 		w.d.conf.filtersMu.Lock()
 		if due {
 			fy.LastUpdated = time.Time{}
@@ -313,7 +342,10 @@ func (w *c15World) observe(before []os.FileInfo) (obs []string) {
 	n := len(w.lists)
 	for i := 0; i < n; i++ {
 		fy := w.flt(i)
-		p := fy.Path(w.dataDir)
+		if fy == nil {
+			fy = &FilterYAML{Filter: Filter{ID: rulelist.URLFilterID(i + 1)}}
+		}
+		p := w.pathOf(i)
 		file := "~"
 		data, err := os.ReadFile(p)
 		if err == nil {
@@ -332,7 +364,8 @@ func (w *c15World) observe(before []os.FileInfo) (obs []string) {
 	// no stray pending files may be left behind
 	ents, _ := os.ReadDir(filepath.Join(w.dataDir, filterDir))
 	for _, e := range ents {
-		if !strings.HasSuffix(e.Name(), ".txt") {
+		// <id>.txt.old is what remove_url leaves behind (never deleted, as the code says)
+		if !strings.HasSuffix(e.Name(), ".txt") && !strings.HasSuffix(e.Name(), ".txt.old") {
 			obs = append(obs, "stray:"+vutil.Hex(e.Name()))
 		}
 	}
@@ -350,7 +383,7 @@ func (w *c15World) setURL(f []string) []string {
 	}
 	before := make([]os.FileInfo, n)
 	for x := 0; x < n; x++ {
-		before[x], _ = os.Stat(w.flt(x).Path(w.dataDir))
+		before[x], _ = os.Stat(w.pathOf(x))
 	}
 	oldURL := w.flt(i).URL
 	newURL := c15HTTPURL(j, k)
@@ -381,7 +414,7 @@ func (w *c15World) setURL(f []string) []string {
 func (w *c15World) stats() []os.FileInfo {
 	before := make([]os.FileInfo, len(w.lists))
 	for x := range w.lists {
-		before[x], _ = os.Stat(w.flt(x).Path(w.dataDir))
+		before[x], _ = os.Stat(w.pathOf(x))
 	}
 
 	return before
@@ -395,6 +428,30 @@ func (w *c15World) setRules() []string {
 	r.Header.Set("Content-Type", "application/json")
 	rec := httptest.NewRecorder()
 	w.d.handleFilteringSetRules(rec, r)
+
+	return append([]string{strconv.Itoa(rec.Code)}, w.observe(before)...)
+}
+
+// remove runs remove_url on list i.
+func (w *c15World) remove(f []string) []string {
+	i := vutil.Atoi(f[0])
+	before := w.stats()
+	fy := w.flt(i)
+	if fy == nil {
+		panic("harness: list already removed")
+	}
+	body, err := json.Marshal(map[string]any{"url": fy.URL, "whitelist": w.lists[i].allow})
+	if err != nil {
+		panic(err)
+	}
+	r := httptest.NewRequest(http.MethodPost, "http://agh.example/control/filtering/remove_url", bytes.NewReader(body))
+	rec := httptest.NewRecorder()
+	w.d.handleFilteringRemoveURL(rec, r)
+	w.removed[i] = true
+	if w.flt(i) != nil {
+		panic("harness: remove_url did not remove the list")
+	}
+	before[i] = nil
 
 	return append([]string{strconv.Itoa(rec.Code)}, w.observe(before)...)
 }
@@ -432,6 +489,8 @@ func c15RunB(f []string) []string {
 		return w.setRules()
 	case "C15.loop":
 		return w.loop()
+	case "C15.remove":
+		return w.remove(f[1:])
 	}
 	panic("unknown op " + f[0])
 }
@@ -484,7 +543,32 @@ func c15GenB(r *rand.Rand, emit vutil.Emit) {
 		}
 		emit(line...)
 		prev := make([]string, n)
+		removed := map[int]bool{}
 		ver := 0
+		if r.IntN(25) == 0 && !lists[0].local && lists[0].enabled {
+			// cut sweep: store a list, then deliver a different body cut after k bytes for EVERY k,
+			// by a short Content-Length / an unterminated chunk / a cut gzip stream: nothing may change
+			first := c15Content(r, 0) + "||w0.l0.example^\n"
+			second := c15Content(r, 0) + "||w1.l0.example^\n||w2.l0.example^\n"
+			op := func(kind, data string, complete bool) {
+				ln := []string{"C15.refresh", vutil.B(!lists[0].allow), vutil.B(lists[0].allow), "1"}
+				for i := range lists {
+					if i == 0 {
+						ln = append(ln, "1", kind, vutil.Hex(data), vutil.B(complete))
+					} else {
+						ln = append(ln, "0", "F", vutil.Hex("404"), "1")
+					}
+				}
+				emit(ln...)
+			}
+			op("B", first, true)
+			for k := 0; k <= len(second); k++ {
+				op(vutil.Pick(r, []string{"B", "B", "G"}), second[:k], false)
+			}
+			op("B", second, true)
+
+			continue
+		}
 		steps := 2 + r.IntN(7)
 		for s := 0; s < steps; s++ {
 			if r.IntN(4) == 0 {
@@ -492,11 +576,34 @@ func c15GenB(r *rand.Rand, emit vutil.Emit) {
 				// (set_url on HTTP lists, set_rules), THEN the updates-loop step
 				var httpLists []int
 				for i, l := range lists {
-					if !l.local {
+					if !l.local && !removed[i] {
 						httpLists = append(httpLists, i)
 					}
 				}
 				for b := 1 + r.IntN(3); b > 0; b-- {
+					if r.IntN(12) == 0 {
+						// remove_url of a list that is still there
+						var alive []int
+						for i := range lists {
+							if !removed[i] {
+								alive = append(alive, i)
+							}
+						}
+						if len(alive) > 0 {
+							i := vutil.Pick(r, alive)
+							removed[i] = true
+							emit("C15.remove", strconv.Itoa(i))
+							var keep []int
+							for _, x := range httpLists {
+								if x != i {
+									keep = append(keep, x)
+								}
+							}
+							httpLists = keep
+
+							continue
+						}
+					}
 					if len(httpLists) == 0 || r.IntN(4) == 0 {
 						emit("C15.setrules")
 
@@ -613,7 +720,10 @@ func c15GenB(r *rand.Rand, emit vutil.Emit) {
 					}
 					data, complete = body, true
 				}
-				if (kind == "B" || kind[0] == 'R') && complete {
+				if !l.local && kind == "B" && r.IntN(10) == 0 {
+					kind = "G" // the same body, gzip-coded (cut inside the stream when !complete)
+				}
+				if (kind == "B" || kind == "G" || kind[0] == 'R') && complete {
 					prev[i] = data
 				}
 				op = append(op, vutil.B(due), kind, vutil.Hex(data), vutil.B(complete))
